@@ -112,6 +112,7 @@ func (tree *Tree[T]) Add(pattern string, h T, ms []types.Middleware[T], methods 
 		defer tree.locker.Unlock()
 	}
 
+	tree.vhook("add.check", false)
 	if err := tree.checkAmbiguous(pattern); err != nil { // 需要读取路由树，同样在锁的范围之内。
 		return err
 	}
@@ -128,6 +129,7 @@ func (tree *Tree[T]) Add(pattern string, h T, ms []types.Middleware[T], methods 
 		return err
 	}
 
+	tree.vhook("add.mutate", true)
 	n, err := tree.getNode(pattern)
 	if err != nil {
 		return err
@@ -187,6 +189,7 @@ func (tree *Tree[T]) Clean(prefix string) {
 		defer tree.locker.Unlock()
 	}
 
+	tree.vhook("clean.mutate", true)
 	tree.node.clean(prefix)
 
 	clear(tree.methods) // 重新统计剩余节点的请求方法
@@ -203,11 +206,13 @@ func (tree *Tree[T]) Remove(pattern string, methods ...string) {
 		defer tree.locker.Unlock()
 	}
 
+	tree.vhook("remove.find", false)
 	child := tree.Find(pattern)
 	if child == nil {
 		return
 	}
 
+	tree.vhook("remove.mutate", true)
 	removed := make([]string, 0, len(child.handlers)) // 实际被删除的请求方法
 	if len(methods) == 0 {
 		for m := range child.handlers {
@@ -281,6 +286,7 @@ func (tree *Tree[T]) Handler(ctx *types.Context, method string) (types.Node, T, 
 		defer tree.locker.RUnlock()
 	}
 
+	tree.vhook("handler.walk", false)
 	if tree.hasTrace && method == http.MethodTrace {
 		return tree.node, tree.trace, true
 	}
@@ -292,6 +298,7 @@ func (tree *Tree[T]) Handler(ctx *types.Context, method string) (types.Node, T, 
 		node = tree.node.matchChildren(ctx)
 	}
 
+	tree.vhook("handler.lookup", false)
 	if node == nil || node.size() == 0 {
 		return nil, tree.notFound, false
 	}
@@ -311,6 +318,7 @@ func (tree *Tree[T]) Routes() map[string][]string {
 		defer tree.locker.RUnlock()
 	}
 
+	tree.vhook("routes.walk", false)
 	routes := make(map[string][]string, 100)
 
 	ms := []string{http.MethodOptions}
@@ -338,6 +346,7 @@ func (tree *Tree[T]) URL(buf *errwrap.StringBuilder, pattern string, ps map[stri
 		defer tree.locker.RUnlock()
 	}
 
+	tree.vhook("url.find", false)
 	n := tree.Find(pattern)
 	if n == nil || n.size() == 0 { // 没有处理方法的中间节点不是路由项
 		return fmt.Errorf("%s 并不是一条有效的注册路由项", pattern)
@@ -380,6 +389,7 @@ func (tree *Tree[T]) ApplyMiddleware(ms ...types.Middleware[T]) {
 		defer tree.locker.Unlock()
 	}
 
+	tree.vhook("use.mutate", true)
 	tree.notFound = ApplyMiddleware(tree.notFound, "", "", tree.Name(), ms...)
 	if tree.hasTrace {
 		tree.trace = ApplyMiddleware(tree.trace, http.MethodTrace, "", tree.Name(), ms...)
